@@ -506,12 +506,11 @@ theorem KeepsB.appBindReq (e : EP) (req : Nat) (bt : BindType) (host : Bytes) (p
   split
   · exact KeepsB.refl e
   · rename_i fid rng' fb' hd
-    have s : KeepsB e { e with rng := rng', fallback := fb', flows := insert e.flows fid (.bindRequested req) } :=
-      (KeepsB.insertPending e fid (.bindRequested req) (drawId_spec _ _ _ _ _ _ _ hd).1).trans ((by kb))
-    simp only
     split
-    · exact s
-    · exact s.trans (KeepsB.enqFrame _ _)
+    · exact (by kb)
+    · have s : KeepsB e { e with rng := rng', fallback := fb', flows := insert e.flows fid (.bindRequested req) } :=
+        (KeepsB.insertPending e fid (.bindRequested req) (drawId_spec _ _ _ _ _ _ _ hd).1).trans ((by kb))
+      exact s.trans (KeepsB.enqFrame _ _)
 
 theorem KeepsB.appBindNext (e : EP) : KeepsB e (appBindNext e).1 := by
   unfold Mux.appBindNext
